@@ -3,9 +3,9 @@ package main
 // bitword (C08), bitstr (C09), sigbits (C16, C17).
 
 import (
-	"strings"
 	"math/rand"
 	"sort"
+	"strings"
 
 	"github.com/openacid/low/bitstr"
 	"github.com/openacid/low/bitword"
@@ -16,12 +16,12 @@ func init() {
 	exec := map[string]func(in In, em *Emitter){
 		"bw": execBW, "bwtostr": execBWToStr, "bwfd": execBWFD, "bwstrs": execBWStrs,
 		"bscmp": execBSCmp, "bsupto": execBSUpto,
-		"fdb": execFDB, "cntp": execCntP, "shard": execShard,
+		"fdb": execFDB, "fdbbig": execFDBBig, "cntpbig": execCntPBig, "shardbig": execShardBig, "cntp": execCntP, "shard": execShard,
 	}
 	props["C08"] = &Prop{Gen: genC08, Exec: exec, Trivial: func(k string, in In) bool { return k == "bw" && len(in.Bs("s")) == 0 }}
 	props["C09"] = &Prop{Gen: genC09, Exec: exec}
-	props["C16"] = &Prop{Gen: genC16, Exec: exec, Trivial: func(k string, in In) bool { return len(toList(in.get("keys"))) < 2 }}
-	props["C17"] = &Prop{Gen: genC17, Exec: exec, Trivial: func(k string, in In) bool { return len(toList(in.get("keys"))) < 2 }}
+	props["C16"] = &Prop{Gen: genC16, Exec: exec, Trivial: func(k string, in In) bool { return in.has("keys") && len(toList(in.get("keys"))) < 2 }}
+	props["C17"] = &Prop{Gen: genC17, Exec: exec, Trivial: func(k string, in In) bool { return in.has("keys") && len(toList(in.get("keys"))) < 2 }}
 }
 
 // ---------------------------------------------------------------- C08
@@ -412,7 +412,7 @@ func genC09(g *Gen) {
 			f = r.Intn(t + 1)
 		}
 		st := f / 8
-		payload := s[st:(t+7)/8]
+		payload := s[st : (t+7)/8]
 		var as [][]int64
 		addA := func(a []byte) { as = append(as, bytesJ(a)) }
 		addA([]byte{})
@@ -479,6 +479,103 @@ func execCntP(in In, em *Emitter) {
 	})
 	em.Emit("cntp", J{"in": in.m, "out": o, "abn": abn})
 	em.Calls(len(qs))
+}
+
+// patKeys builds the pattern key set of Trace_Strs!PatKey: key i is the 4-byte big-endian number
+// (i/13)*stride + patT[i%13] (stride = 32768).
+var patT = []int64{0, 1, 2, 4, 5, 64, 65, 1024, 1025, 4096, 8192, 8193, 16384}
+
+func patKeys(n int, stride int64) []string {
+	buf := make([]byte, 4*n)
+	keys := make([]string, n)
+	for i := 0; i < n; i++ {
+		v := uint32(int64(i/13)*stride + patT[i%13])
+		buf[4*i], buf[4*i+1], buf[4*i+2], buf[4*i+3] = byte(v>>24), byte(v>>16), byte(v>>8), byte(v)
+	}
+	all := string(buf)
+	for i := range keys {
+		keys[i] = all[4*i : 4*i+4]
+	}
+	return keys
+}
+
+func execFDBBig(in In, em *Emitter) {
+	keys := patKeys(in.Int("n"), in.I("stride"))
+	idxs := in.Is("idxs")
+	o := J{}
+	abn := guard(func() {
+		fd := sigbits.FirstDiffBits(keys)
+		out := make([]int64, len(idxs))
+		for j, p := range idxs {
+			out[j] = -7
+			if int(p) < len(fd) {
+				out[j] = num(int64(fd[p]))
+			}
+		}
+		o = J{"n": len(fd), "fd": out}
+	})
+	em.Emit("fdbbig", J{"in": in.m, "out": o, "abn": abn})
+	em.Calls(1)
+}
+
+func execCntPBig(in In, em *Emitter) {
+	keys := patKeys(in.Int("n"), in.I("stride"))
+	qs := toList(in.get("queries"))
+	o := J{}
+	abn := guard(func() {
+		sb := sigbits.New(keys)
+		res := make([][]interface{}, len(qs))
+		for j, x := range qs {
+			q := toIs(x)
+			m0, cnt := sb.CountPrefixes(int32(q[0]), int32(q[1]), int32(q[2]))
+			res[j] = []interface{}{num(int64(m0)), nums32(cnt)}
+		}
+		o = J{"res": res}
+	})
+	em.Emit("cntpbig", J{"in": in.m, "out": o, "abn": abn})
+	em.Calls(len(qs))
+}
+
+func execShardBig(in In, em *Emitter) {
+	keys := patKeys(in.Int("n"), in.I("stride"))
+	maxSize := in.I32("maxSize")
+	want := append(in.Is("at"), in.Is("more")...)
+	o := J{}
+	abn := guard(func() {
+		l, b := sigbits.ShardByPrefix(keys, maxSize)
+		o = J{"nb": len(b), "nl": len(l), "b1": -7, "blast": -7, "shards": [][]int64{}}
+		if len(b) == 0 || len(l) != len(b)-1 {
+			return
+		}
+		o["b1"], o["blast"] = num(int64(b[0])), num(int64(b[len(b)-1]))
+		var shards [][]int64
+		seen := map[int]bool{}
+		for _, at := range want {
+			// the shard holding key `at`: binary search over the boundaries (if they are not ascending the reported
+			// shard simply does not hold the key, which the specification rejects)
+			lo, hi := 0, len(b)-1
+			for lo+1 < hi {
+				mid := (lo + hi) / 2
+				if int64(b[mid]) <= at {
+					lo = mid
+				} else {
+					hi = mid
+				}
+			}
+			if seen[lo] {
+				continue
+			}
+			seen[lo] = true
+			next := int64(-1)
+			if lo+1 < len(l) {
+				next = int64(l[lo+1])
+			}
+			shards = append(shards, []int64{int64(lo + 1), num(int64(b[lo])), num(int64(b[lo+1])), num(int64(l[lo])), num(next)})
+		}
+		o["shards"] = shards
+	})
+	em.Emit("shardbig", J{"in": in.m, "out": o, "abn": abn})
+	em.Calls(1)
 }
 
 func execShard(in In, em *Emitter) {
@@ -568,8 +665,12 @@ func groupedKeys(r *rand.Rand, total int) []string {
 	}
 	var keys []string
 	gb := r.Intn(4)
+	aligned := r.Intn(2) == 0
 	for len(keys) < total && gb < 250 {
 		size := []int{64, 63, 65, 32, 31, 33, 128, 1, 2, 16, 64, 64, 64}[r.Intn(13)]
+		if aligned {
+			size = []int{64, 64, 128, 32, 32, 64, 192}[r.Intn(7)] // group boundaries on multiples of 32 / 64 keys
+		}
 		gb += 1 + r.Intn(3)
 		pre := string(base) + string(filler[:k]) + string([]byte{byte(gb)}) + string(filler[k:])
 		tail := bsString(r, r.Intn(3))
@@ -586,6 +687,47 @@ func groupedKeys(r *rand.Rand, total int) []string {
 
 func genC16(g *Gen) {
 	r := g.R
+	// key sets of 65,537 .. 600,000 keys given by a pattern (Trace_Strs!PatKey): FirstDiffBits at sampled pairs around
+	// every multiple of 2^16 and 2^18, CountPrefixes calls in a row on one object with short ranges whose bounds differ
+	// by multiples of 2^16 (indexes kept in 16 bits collide there)
+	for c := 0; c < g.N(3, 24); c++ {
+		n := []int{262145 + r.Intn(1000), 65537 + r.Intn(5000), 600000, 524289, 131073, 262144, 70000}[c%7]
+		stride := int64(32768)
+		idxs := []int64{0, 1, int64(n) - 2, int64(n) - 3}
+		for k := int64(1); k<<16 < int64(n); k++ {
+			for d := int64(-2); d <= 1; d++ {
+				if p := k<<16 + d; p >= 0 && p < int64(n)-1 {
+					idxs = append(idxs, p)
+				}
+			}
+		}
+		for k := 0; k < 40; k++ {
+			idxs = append(idxs, r.Int63n(int64(n)-1))
+		}
+		g.Case("fdbbig", J{"n": n, "stride": stride, "idxs": idxs})
+		var qs [][]int64
+		for k := 0; k < 14; k++ {
+			s0 := int64(r.Intn(8))
+			e0 := s0 + 2 + int64(r.Intn(6))
+			m := int64(1 + r.Intn(3))
+			qs = append(qs, []int64{s0, e0, m})
+			// the same bounds plus multiples of 65536, with as many or fewer counters
+			for _, sh := range [][2]int64{{1, 1}, {0, 1}, {1, 0}, {2, 2}, {3, 3}} {
+				s1, e1 := s0+sh[0]<<16, e0+sh[1]<<16
+				if s1 < e1-1 && e1-s1 <= 12 && e1 <= int64(n) {
+					qs = append(qs, []int64{s1, e1, 1 + int64(r.Intn(int(m)))})
+				}
+			}
+		}
+		for k := 0; k < 10; k++ { // short ranges anywhere, some across multiples of 2^16
+			s0 := r.Int63n(int64(n) - 12)
+			if k%2 == 0 {
+				s0 = int64(1+r.Intn(n>>16))<<16 - int64(1+r.Intn(5))
+			}
+			qs = append(qs, []int64{s0, s0 + 2 + int64(r.Intn(9)), int64(1 + r.Intn(3))})
+		}
+		g.Case("cntpbig", J{"n": n, "stride": stride, "queries": qs})
+	}
 	for c := 0; c < g.N(10, 400); c++ {
 		keys := groupedKeys(r, 65+r.Intn(196))
 		g.Case("fdb", J{"keys": strsJ(keys)})
@@ -691,6 +833,21 @@ func genC16(g *Gen) {
 
 func genC17(g *Gen) {
 	r := g.R
+	// pattern key sets (Trace_Strs!PatKey) of 65,537 .. 600,000 keys: the shards holding the keys around every
+	// multiple of 2^16 and 2^18, the first and the last key and a seeded sample are judged
+	for c := 0; c < g.N(4, 30); c++ {
+		n := []int{262145 + r.Intn(2000), 65537 + r.Intn(5000), 600000, 524289 + r.Intn(100), 131073, 262144, 70000}[c%7]
+		maxSize := []int{1000, 13, 100, 70000, 5000, 3, 300000}[r.Intn(7)]
+		at := []int64{0, int64(n) - 1}
+		for k := int64(1); k<<16 < int64(n); k++ {
+			at = append(at, k<<16-1, k<<16)
+		}
+		var more []int64
+		for k := 0; k < 40; k++ {
+			more = append(more, r.Int63n(int64(n)))
+		}
+		g.Case("shardbig", J{"n": n, "stride": 32768, "maxSize": maxSize, "at": at, "more": more})
+	}
 	for c := 0; c < g.N(1500, 60000); c++ {
 		keys := keySet(r, 1+r.Intn(20))
 		if len(keys) == 0 {
